@@ -142,10 +142,10 @@ class Glue(Harness):
             e.assume(lift(xl[i]) <= xb[i])
             e.assume(lift(xb[i]) <= xu[i])
         pb = P.Problem(obj, ctx.arr(xb), bnds, lin, nl, None, 2.0 ** -20, False, False, 1, sys.maxsize, False)
-        pb(ctx.arr(xb))
-        if pb.n != n:
+        if pb.n != n:              # a path on which a bound pair is within the fixing tolerance: not this harness' subject
             out["skip"] = True
             return out
+        pb(ctx.arr(xb))
         tr = object.__new__(FW.TrustRegion)
         tr._pb = pb
         tr._constants = M.main._set_default_constants()
